@@ -138,6 +138,12 @@ func (tc *tokenConverter) handleCompoundToken(t models.TokenWithSpan) []token.To
 		}
 	}
 
+	// The remaining compound keywords carry the generic keyword type and are told apart by
+	// their text. Only a keyword token is looked at this way: a string literal or quoted
+	// identifier that reads 'ORDER BY' is that text, not a keyword.
+	if t.Token.Type != models.TokenTypeKeyword {
+		return nil
+	}
 	switch strings.ToUpper(t.Token.Value) { // compound keywords in any letter case
 	case "INNER JOIN":
 		return []token.Token{
